@@ -49,13 +49,17 @@ def split(idx, na):
     return tuple(int(v) for v in idx[:na]), tuple(int(v) for v in idx[na:])
 
 
-def make_component(na: int, nd: int, ns: int, limits: tuple, kpl: int = 1, name='c', fail_alpha=None, **extra):
+def make_component(na: int, nd: int, ns: int, limits: tuple, kpl: int = 1, name='c', fail_alpha=None, trip=None, **extra):
     """A real Component with `na` model-, `nd` data- and `ns` surrogate-fidelity dimensions and per-dimension limits.
     The model is transcendental and fidelity dependent so that the interpolants of different indices differ."""
     assert len(limits) == na + nd + ns and nd >= 1
     inputs = [Variable(f'x{i}', domain=(0.0, 1.0)) for i in range(nd)]
 
     def model(inputs, model_fidelity=None):
+        if trip is not None and trip.get('armed'):
+            # a vectorised model that crashes ONCE (its exception escapes activate_index; the caller catches it and goes on)
+            trip['armed'] = False; trip['fired'] = True
+            raise RuntimeError('model crashed in this call')
         s = sum((k + 1) * inputs[f'x{k}'] for k in range(nd))
         mf = np.atleast_2d(np.asarray(model_fidelity, dtype=float)) if na > 0 else None
         fac = 1.0 + 0.25 * (mf.sum(axis=-1) if na > 0 else 0.0)
